@@ -741,3 +741,292 @@ Proof.
   - destruct (wf_msg S root fs); discriminate.
   - exact H.
 Qed.
+
+(* ------------------------------------------------------------------ strict vs. property domain: wherever the strict denotation
+   is defined (ROk or RErr) the property's denotation is the same *)
+Definition rr {A} (a b : res A) : Prop := a = RUndef \/ a = b.
+
+Lemma rr_bind {A B} (a b : res A) (f g : A -> res B) :
+  rr a b -> (forall x, rr (f x) (g x)) -> rr (res_bind a f) (res_bind b g).
+Proof.
+  intros [H|H] Hf; subst; [left; reflexivity|]. destruct b; cbn [res_bind]; [apply Hf | right; reflexivity | left; reflexivity].
+Qed.
+Lemma rr_refl {A} (a : res A) : rr a a.  Proof. right; reflexivity. Qed.
+Lemma rr_undef {A} (b : res A) : rr RUndef b.  Proof. left; reflexivity. Qed.
+Lemma rr_if {A} (c : bool) (x b : res A) : rr x b -> rr (if c then RUndef else x) b.
+Proof. destruct c; [intros; apply rr_undef | auto]. Qed.
+
+Section StrictLax.
+  Variable d : bool.
+  Variable S : schema.
+
+  Lemma scalar_rr k v : rr (denote_scalar true k v) (denote_scalar false k v).
+  Proof.
+    unfold denote_scalar. destruct (ev_of v) as [e|]; [|apply rr_refl].
+    apply rr_bind; [apply rr_refl|]. intro l. unfold leaf_agrees at 2. cbn [negb orb].
+    destruct (leaf_agrees true k e l); [apply rr_refl | apply rr_undef].
+  Qed.
+
+  Lemma key_rr kk s : rr (denote_key true kk s) (denote_key false kk s).
+  Proof.
+    unfold denote_key. apply rr_bind; [apply rr_refl|]. intro key. unfold key_agrees at 2. cbn [negb orb].
+    destruct (key_agrees true kk s key); [apply rr_refl | apply rr_undef].
+  Qed.
+
+  Section Level.
+    Variables rt rf : mdesc -> list (list Z * json) -> res pmsg.
+    Hypothesis Hr : forall md ms, rr (rt md ms) (rf md ms).
+
+    Lemma single_rr t v : rr (den_single true S rt t v) (den_single false S rf t v).
+    Proof.
+      unfold den_single. destruct t as [k|name].
+      - cbn [andb]. apply rr_if, scalar_rr.
+      - destruct v; try apply rr_refl. destruct (find_msg S name) as [md|]; [|apply rr_refl].
+        apply rr_bind; [apply Hr|]. intro fs. cbn [andb]. apply rr_if, rr_refl.
+    Qed.
+
+    Lemma elems_rr t xs : rr (den_elems true S rt t xs) (den_elems false S rf t xs).
+    Proof.
+      induction xs as [|x xs IH]; cbn [den_elems]; [apply rr_refl|].
+      apply rr_bind; [apply single_rr|]. intro v. apply rr_bind; [exact IH|]. intro vs. apply rr_refl.
+    Qed.
+
+    Lemma entries_rr kk t ms : rr (den_entries true S rt kk t ms) (den_entries false S rf kk t ms).
+    Proof.
+      induction ms as [|[k x] ms IH]; cbn [den_entries]; [apply rr_refl|].
+      apply rr_bind; [apply key_rr|]. intro key. apply rr_bind; [apply single_rr|]. intro v. cbn [andb].
+      apply rr_if. apply rr_bind; [exact IH|]. intro kvs. apply rr_refl.
+    Qed.
+
+    Lemma field_rr fd v : rr (den_field true S rt fd v) (den_field false S rf fd v).
+    Proof.
+      unfold den_field. destruct (fd_label fd) as [|p|kk].
+      - apply rr_bind; [apply single_rr|]. intro pv. apply rr_refl.
+      - destruct v; try apply rr_refl. apply rr_bind; [apply elems_rr|]. intro vs. cbn [andb].
+        destruct vs; [apply rr_if, rr_refl|]. cbn [andb]. apply rr_if, rr_refl.
+      - destruct v; try apply rr_refl. apply rr_bind; [apply entries_rr|]. intro kvs. apply rr_refl.
+    Qed.
+
+    Lemma members_rr md ms : rr (den_members true d S rt md ms) (den_members false d S rf md ms).
+    Proof.
+      induction ms as [|[k v] r IH]; cbn [den_members]; [apply rr_refl|].
+      destruct (find_field_name md k) as [fd|]; [|destruct d; [apply rr_refl | exact IH]].
+      destruct (json_is_null v); [exact IH|]. cbn [andb]. apply rr_if.
+      apply rr_bind; [apply field_rr|]. intro ov. apply rr_bind; [exact IH|]. intro fs. apply rr_refl.
+    Qed.
+  End Level.
+
+  Lemma denote_members_rr f : forall md ms, rr (denote_members true d S f md ms) (denote_members false d S f md ms).
+  Proof. induction f as [|f IH]; intros md ms; cbn [denote_members]; [apply rr_refl|]. apply members_rr. exact IH. Qed.
+
+  Lemma denote_top_rr root j : rr (denote_top true d S root j) (pdenote d S root j).
+  Proof.
+    unfold pdenote, denote_top. destruct (find_msg S root) as [md|]; [|apply rr_refl]. destruct j; try apply rr_refl.
+    apply rr_bind; [apply denote_members_rr|]. intro fs. apply rr_refl.
+  Qed.
+
+  Theorem strict_in_domain root j m : denote_top true d S root j = ROk m -> pdenote d S root j = ROk m.
+  Proof. intro H. destruct (denote_top_rr root j) as [E|E]; congruence. Qed.
+  Theorem strict_error_in_domain root j : denote_top true d S root j = RErr -> pdenote d S root j = RErr.
+  Proof. intro H. destruct (denote_top_rr root j) as [E|E]; congruence. Qed.
+End StrictLax.
+
+(* ERROR <-> : on the strict domain (defined denotation, within the stack) the machine fails exactly when the
+   property's denotation is an error, and succeeds — with the specified bytes — exactly when it is a message *)
+Theorem sax_error_iff d S root j junk :
+  (9 <= length junk)%nat -> denote_top true d S root j <> RUndef -> (frames_needed S root j <= 256)%nat ->
+  (sax_run d S root junk (events j) = OErr <-> pdenote d S root j = RErr) /\
+  (forall m, pdenote d S root j = ROk m -> sax_run d S root junk (events j) = OOk (encode_msg m)).
+Proof.
+  intros Hj Hdef Hdep. destruct (denote_top true d S root j) as [m| |] eqn:Hd; [| |congruence].
+  - pose proof (strict_in_domain d S root j m Hd) as Hp. pose proof (sax_refines_spec d S root j m junk Hj Hd Hdep) as Hs.
+    split; [split; intro H; congruence|]. intros m' Hm'. congruence.
+  - pose proof (strict_error_in_domain d S root j Hd) as Hp. pose proof (sax_error_sound d S root j junk Hj Hd Hdep) as Hs.
+    split; [split; auto|]. intros m' Hm'. congruence.
+Qed.
+
+(* the stack bound in terms of the JSON nesting depth alone: a level costs at most two frames *)
+Section NeedDepth.
+  Variable S : schema.
+  Lemma fold_max_le {A} (f : A -> nat) (l : list A) (b : nat) : (forall x, In x l -> (f x <= b)%nat) ->
+    (fold_right (fun x m => Nat.max (f x) m) O l <= b)%nat.
+  Proof. induction l as [|x l IH]; intro H; cbn [fold_right]; [lia|]. pose proof (H x (or_introl eq_refl)). assert (forall y, In y l -> (f y <= b)%nat) by (intros; apply H; right; assumption). specialize (IH H1). lia. Qed.
+
+  Lemma need_depth f : forall md ms, (need S f md ms <= 2 * fold_right (fun x m => Nat.max (json_depth (snd x)) m) O ms)%nat.
+  Proof.
+    induction f as [|f IH]; intros md ms; cbn [need]; [lia|].
+    unfold need_members. apply fold_max_le. intros [k v] Hin. cbn [fst snd].
+    pose proof (fold_max_ge (fun y : list Z * json => json_depth (snd y)) ms (k, v) Hin) as Hv. cbn [snd] in Hv.
+    assert (Hs : forall t x, (need_single S (need S f) t x <= 2 * json_depth x)%nat).
+    { intros t x. unfold need_single. destruct t; [lia|]. destruct x; try lia. destruct (find_msg S name); [|lia].
+      specialize (IH m ms0). cbn [json_depth]. lia. }
+    destruct (find_field_name md k) as [fd|]; [|lia]. unfold need_field.
+    destruct (fd_label fd).
+    - specialize (Hs (fd_type fd) v). lia.
+    - destruct v; try lia. cbn [json_depth] in Hv.
+      assert (H1 : (fold_right (fun x m => Nat.max (need_single S (need S f) (fd_type fd) x) m) O xs
+                    <= 2 * fold_right (fun x m => Nat.max (json_depth x) m) O xs)%nat).
+      { apply fold_max_le. intros x Hx. pose proof (fold_max_ge (fun y : json => json_depth y) xs x Hx). specialize (Hs (fd_type fd) x). lia. }
+      lia.
+    - destruct v; try lia. destruct ms0 as [|m0 ms0]; [cbn [json_depth] in Hv; lia|]. cbn [json_depth] in Hv.
+      assert (H1 : (fold_right (fun x m => Nat.max (need_single S (need S f) (fd_type fd) (snd x)) m) O (m0 :: ms0)
+                    <= 2 * fold_right (fun x m => Nat.max (json_depth (snd x)) m) O (m0 :: ms0))%nat).
+      { apply fold_max_le. intros x Hx. pose proof (fold_max_ge (fun y : list Z * json => json_depth (snd y)) (m0 :: ms0) x Hx). specialize (Hs (fd_type fd) (snd x)). cbn beta in *. lia. }
+      lia.
+  Qed.
+
+  Lemma frames_le_depth root j : (frames_needed S root j <= 2 * json_depth j)%nat.
+  Proof.
+    unfold frames_needed. destruct (find_msg S root); [|destruct j; cbn; lia]. destruct j; try (cbn; lia).
+    pose proof (need_depth (json_depth (JObj ms)) m ms). cbn [json_depth] in *. lia.
+  Qed.
+End NeedDepth.
+
+Corollary sax_refines_spec_depth disallow S root j m junk :
+  (9 <= length junk)%nat -> denote_top true disallow S root j = ROk m -> (json_depth j <= 128)%nat ->
+  sax_run disallow S root junk (events j) = OOk (encode_msg m).
+Proof. intros Hj Hd Hdep. apply sax_refines_spec; auto. pose proof (frames_le_depth S root j). lia. Qed.
+
+(* ------------------------------------------------------------------ consequences at the specification level *)
+(* the specified output is accepted by the proved decoder and decodes to exactly the denoted message *)
+Theorem j2p_output_decodes d S root j m fuel :
+  pdenote d S root j = ROk m -> (depth (VMsg m) <= fuel)%nat ->
+  j2p_spec d S root j = ROk (encode_msg m) /\ decode_msg S fuel root (encode_msg m) = Some m.
+Proof.
+  intros Hp Hf. split.
+  - unfold j2p_spec. rewrite Hp. reflexivity.
+  - unfold pdenote, denote_top in Hp. destruct (find_msg S root); [|discriminate]. destruct j; try discriminate.
+    destruct (denote_members false d S (json_depth (JObj ms)) m0 ms) as [fs| |]; cbn [res_bind] in Hp; try discriminate.
+    destruct (wf_msg S root fs) eqn:Hw; [|discriminate]. inversion Hp; subst m.
+    apply decode_encode_msg; assumption.
+Qed.
+
+(* refinement + domain inclusion + decoding, in one statement *)
+Theorem sax_refines_spec_decodes d S root j m junk fuel :
+  (9 <= length junk)%nat ->
+  denote_top true d S root j = ROk m ->
+  (frames_needed S root j <= 256)%nat -> (depth (VMsg m) <= fuel)%nat ->
+  exists b, sax_run d S root junk (events j) = OOk b /\
+            j2p_spec d S root j = ROk b /\ decode_msg S fuel root b = Some m.
+Proof.
+  intros Hj Hd Hdep Hf. exists (encode_msg m).
+  pose proof (strict_in_domain d S root j m Hd) as Hp.
+  destruct (j2p_output_decodes d S root j m fuel Hp Hf) as [H1 H2].
+  split; [exact (sax_refines_spec d S root j m junk Hj Hd Hdep)|]. split; assumption.
+Qed.
+
+(* kind mismatch: a value whose JSON kind contradicts the field makes the denotation an error, wherever it occurs
+   first in document order *)
+Definition json_kind (v : json) : Z :=
+  match v with JNull => 0 | JBool _ => 1 | JNum _ => 2 | JStr _ => 3 | JArr _ => 4 | JObj _ => 5 end.
+(* the JSON kind a field of that label / type is written with *)
+Definition expected_kind (fd : fdesc) : Z :=
+  match fd_label fd with
+  | LRepeated _ => 4
+  | LMap _ => 5
+  | LSingular =>
+    match fd_type fd with
+    | TMsg _ => 5
+    | TScalar k => if k =? 8 then 1 else if (k =? 9) || (k =? 12) then 3 else 2
+    end
+  end.
+Definition known_kind (k : Z) : bool := is_int_kind k || (k =? 1) || (k =? 2) || (k =? 8) || (k =? 9) || (k =? 12).
+
+Lemma known_kind_cases k : known_kind k = true -> In k [3;4;5;6;7;13;15;16;17;18;1;2;8;9;12].
+Proof.
+  unfold known_kind, is_int_kind. rewrite !orb_true_iff, !Z.eqb_eq. cbn [In]. intuition.
+Qed.
+
+Lemma denote_scalar_mismatch strict k v :
+  known_kind k = true -> json_kind v <> 0 ->
+  json_kind v <> (if k =? 8 then 1 else if (k =? 9) || (k =? 12) then 3 else 2) ->
+  denote_scalar strict k v = RErr.
+Proof.
+  intros Hk H0 Hne. apply known_kind_cases in Hk. cbn [In] in Hk.
+  repeat (destruct Hk as [Hk|Hk]; [subst k; destruct v; cbn in *; solve [reflexivity | congruence]|]).
+  contradiction.
+Qed.
+
+Theorem j2p_rejects_kind_mismatch strict d S rec md k v r fd :
+  find_field_name md k = Some fd ->
+  (strict = false \/ num_ok (fd_num fd)) ->
+  json_kind v <> 0 -> json_kind v <> expected_kind fd ->
+  (match fd_label fd, fd_type fd with LSingular, TScalar kd => known_kind kd = true | _, _ => True end) ->
+  den_members strict d S rec md ((k, v) :: r) = RErr.
+Proof.
+  intros Hf Hn H0 Hne Hk. cbn [den_members]. rewrite Hf.
+  assert (Hnull : json_is_null v = false) by (destruct v; cbn in *; congruence). rewrite Hnull.
+  assert (Hnum : (strict && negb ((1 <=? fd_num fd) && (fd_num fd <=? MAX_FIELD_NUMBER))) = false).
+  { destruct Hn as [Hs|Hs]; [subst; reflexivity|]. unfold num_ok in Hs. rewrite Hs. apply andb_false_r. }
+  rewrite Hnum.
+  assert (Hfld : den_field strict S rec fd v = RErr).
+  { unfold den_field, expected_kind in *. destruct (fd_label fd).
+    - unfold den_single. destruct (fd_type fd) as [kd|name].
+      + assert (H11 : (kd =? K_MESSAGE) = false)
+          by (apply known_kind_cases in Hk; cbn [In] in Hk; repeat (destruct Hk as [Hk|Hk]; [subst kd; reflexivity|]); contradiction).
+        rewrite H11, andb_false_r. rewrite denote_scalar_mismatch; auto.
+      + destruct v; cbn in *; congruence.
+    - destruct v; cbn in *; congruence.
+    - destruct v; cbn in *; congruence. }
+  rewrite Hfld. reflexivity.
+Qed.
+
+(* unknown members: skipped iff allowed, an error iff disallowed *)
+Theorem j2p_unknown_member strict S rec md k v r :
+  find_field_name md k = None ->
+  den_members strict false S rec md ((k, v) :: r) = den_members strict false S rec md r /\
+  den_members strict true S rec md ((k, v) :: r) = RErr.
+Proof. intro Hf. cbn [den_members]. rewrite Hf. split; reflexivity. Qed.
+
+(* the machine does the same: the unknown member's value (any JSON) is consumed without effect, or the run fails *)
+Theorem sax_unknown_member S junk md k v stk glob buf top :
+  obj_frame S top md -> find_field_name md k = None ->
+  J2P.run false S junk (member_events (k, v)) (mk_st (top :: stk) glob false O buf) = MOk (mk_st (top :: stk) glob false O buf) /\
+  J2P.run true S junk (member_events (k, v)) (mk_st (top :: stk) glob false O buf) = MErr.
+Proof.
+  intros Hof Hf. unfold member_events. cbn [fst snd]. split.
+  - rewrite run_cons, (on_key_obj false S junk top md k stk glob buf Hof). unfold lookup_member. rewrite Hf.
+    unfold set_inskip. cbn [m_stk m_glob m_buf m_inskip m_skipd]. apply skip_value.
+  - rewrite run_cons, (on_key_obj true S junk top md k stk glob buf Hof). unfold lookup_member. rewrite Hf. reflexivity.
+Qed.
+
+(* ------------------------------------------------------------------ the strict leaf test is no hidden hypothesis for integers:
+   for every integer kind, every plain integer lexeme in the range of the kind that sonic delivers through OnInt64
+   (|z| < 2^63) passes it — the Go conversions int32(v), uint32(v), uint64(v) are the identity there, zig-zag and fixed
+   widths are chosen by the kind on both sides *)
+Lemma int_kind_cases k : is_int_kind k = true -> In k [3;4;5;6;7;13;15;16;17;18].
+Proof. unfold is_int_kind. rewrite !orb_true_iff, !Z.eqb_eq. cbn [In]. intuition. Qed.
+
+Lemma to_s32_id z : in_sb 32 z = true -> to_s 32 z = z.
+Proof.
+  unfold in_sb, to_s. rewrite andb_true_iff, Z.leb_le, Z.ltb_lt. intros [H1 H2].
+  change (2 ^ (32 - 1)) with 2147483648 in *. change (2 ^ 32) with 4294967296.
+  rewrite Z.mod_small by lia. lia.
+Qed.
+
+Lemma goconv_id k z : is_int_kind k = true -> scalar_okb k z = true -> goconv k z = z.
+Proof.
+  intros Hk Ho. apply int_kind_cases in Hk. cbn [In] in Hk.
+  repeat (destruct Hk as [Hk|Hk]; [subst k; cbn in Ho; unfold goconv; cbn [Z.eqb Pos.eqb orb];
+    try reflexivity;
+    try (apply to_s32_id; exact Ho);
+    try (unfold in_ub in Ho; apply andb_true_iff in Ho; destruct Ho as [H1 H2]; apply Z.leb_le in H1; apply Z.ltb_lt in H2;
+         apply Z.mod_small; split; assumption)|]).
+  contradiction.
+Qed.
+
+Theorem int_leaf_agrees k lex z :
+  is_int_kind k = true -> lex_is_plain_int lex = true -> parse_int lex = Some z ->
+  scalar_okb k z = true -> in_sb 64 z = true ->
+  leaf_agrees true k (EvNum lex) (LScalar z) = true.
+Proof.
+  intros Hk Hp Hz Ho H64. unfold leaf_agrees. cbn [negb orb scalar_payload is_str_ev].
+  unfold num_class. rewrite Hp, Hz, H64, Hk. rewrite (goconv_id k z Hk Ho).
+  cbn [orb negb leaf_bytes leaf_wt]. rewrite bytes_eqb_refl. cbn [andb Bool.eqb].
+  apply int_kind_cases in Hk. cbn [In] in Hk.
+  repeat (destruct Hk as [Hk|Hk]; [subst k; reflexivity|]). contradiction.
+Qed.
+
+(* the code's limit: the 256th frame cannot be pushed (sp is a uint8), whatever the frame *)
+Lemma push_full st fr : length (m_stk st) = 256%nat -> push st fr = MErr.
+Proof. intro H. unfold push. rewrite H. reflexivity. Qed.
